@@ -1907,6 +1907,10 @@ func (s *Netceptor) runProtocol(ctx context.Context, sess BackendSession, bi *Ba
 	for {
 		select {
 		case data := <-ci.ReadChan:
+			if len(data) == 0 {
+				// An empty datagram carries no message type, so there is nothing to process
+				continue
+			}
 			msgType := data[0]
 			if established {
 				switch msgType {
